@@ -248,12 +248,31 @@ func refLens(r [][2]int) []int {
 
 // CheckC10 : with an always-ready consumer every element leaves within Timeout*(1+1/d).
 func CheckC10(s Script, tr Trace) error {
-	if s.Timeout <= 0 || !s.AlwaysReady() || tr.NewErr != "" || s.Stop != nil {
+	if s.Timeout <= 0 || tr.NewErr != "" || s.Stop != nil {
 		return nil
 	}
 	d := s.D()
 	seen := 0
+	ready := s.AlwaysReady()
 	for k, o := range tr.Outs {
+		// The bound applies to a slice when the consumer was ready for all of it: always, or - for
+		// a consumer that delays and holds - when it was already blocked in the receive (everything
+		// earlier taken and released) before the first element of the slice was offered. From then on
+		// the discipline is never blocked, and the timeout has last been restarted before the element
+		// was accepted.
+		applies := ready
+		if !ready && o.RecvEnter >= 0 {
+			applies = true
+			for _, e := range o.Snap {
+				if e < 0 || e >= len(tr.WStart) || tr.WStart[e] < o.RecvEnter {
+					applies = false
+				}
+			}
+		}
+		if !applies {
+			seen += len(o.Snap)
+			continue
+		}
 		for _, e := range o.Snap {
 			if e < 0 || e >= len(tr.WDone) {
 				return nil // belongs to C03
@@ -265,7 +284,7 @@ func CheckC10(s Script, tr Trace) error {
 			}
 		}
 	}
-	if tr.Deadlock != "" && (seen < len(tr.WDone) || tr.Spin) {
+	if ready && tr.Deadlock != "" && (seen < len(tr.WDone) || tr.Spin) {
 		// an element that was accepted and never came out while the consumer was ready
 		return fmt.Errorf("%d of %d accepted elements were never flushed although the consumer was ready (%s)", len(tr.WDone)-seen, len(tr.WDone), firstLine(tr.Deadlock))
 	}
